@@ -344,10 +344,96 @@ func checkC07(c *Ctx, r *Report) {
 					}
 				}
 				r.Check(bad == "", "C07.R5", fmt.Sprintf("If-Range mismatch return #%d leaves the response untouched", nMis), c.InstrPos(ret), "no Content-Range/Content-Length setter can execute before this return", "Content-Range/Content-Length is set at "+bad+" before the If-Range mismatch return: it leaks into the full 200 the caller sends next (the 200 path never clears it)")
-				r.Check(okDom, "C07.R5", fmt.Sprintf("If-Range mismatch return #%d only for a satisfiable range", nMis), c.InstrPos(ret), "on the err == nil side of SliceSize", "If-Range handling runs although the range was unsatisfiable")
+				_ = okDom // (an earlier version required the mismatch return to lie on the satisfiable side of SliceSize; the property asks for the opposite order: see below)
 			})
 		}
 		r.Floor("C07.R5", nMis, 2, "If-Range mismatch returns")
+		// If-Range comes first: "an If-Range that does not match yields the full 200" holds for every Range, also one
+		// that does not fit the stored body — a 416 is written only after the If-Range validator was looked at
+		// (in this function or in the helper it was moved to)
+		var ifrTest ssa.Instruction
+		eachInstr(f, func(in ssa.Instruction) {
+			call, ok := in.(*ssa.Call)
+			if !ok || ifrTest != nil {
+				return
+			}
+			n := calleeName(call)
+			if strings.HasSuffix(n, "headers.Header).IsPresent") {
+				if _, pth := fieldPath(callArgs(call)[0]); len(pth) > 0 && pth[len(pth)-1] == "IfRange" {
+					ifrTest = in
+				}
+			}
+			if h := helperBody(call); h != nil {
+				found := false
+				eachInstr(h, func(i2 ssa.Instruction) {
+					if c2, ok := i2.(*ssa.Call); ok && strings.HasSuffix(calleeName(c2), "headers.Header).IsPresent") {
+						if _, pth := fieldPath(callArgs(c2)[0]); len(pth) > 0 && pth[len(pth)-1] == "IfRange" {
+							found = true
+						}
+					}
+				})
+				if found {
+					ifrTest = in
+				}
+			}
+		})
+		eachInstr(f, func(in ssa.Instruction) {
+			call, ok := in.(*ssa.Call)
+			if !ok || calleeName(call) != "(reservoir/proxy/responder.Responder).WriteError" {
+				return
+			}
+			if k, isC := constInt(callArgs(call)[2]); !isC || k != 416 {
+				return
+			}
+			r.Check(ifrTest != nil && instrDominates(ifrTest, call), "C07.R5", "the 416 is written only after If-Range was evaluated", c.InstrPos(call), "the If-Range test dominates the 416 write", "a Range that does not fit the stored body is refused with 416 before If-Range is looked at: a guarded resume (`Range: bytes=1000-` with `If-Range: \"old\"`) against a replaced, shorter body gets 416 instead of the full 200 the mismatching validator asks for")
+		})
+		// a date validator matches only the stored Last-Modified itself: later as well as earlier dates are mismatches
+		for _, hc := range helperContexts(f, 2) {
+			g := hc.fn
+			eachInstr(g, func(in ssa.Instruction) {
+				call, ok := in.(*ssa.Call)
+				if !ok {
+					return
+				}
+				n := calleeName(call)
+				if n != "(time.Time).Before" && n != "(time.Time).After" && n != "(time.Time).Equal" && n != "(time.Time).Compare" {
+					return
+				}
+				args := callArgs(call)
+				onLM := false
+				for _, a := range args {
+					if _, pth := fieldPath(a); len(pth) > 0 && pth[len(pth)-1] == "LastModified" {
+						onLM = true
+					}
+				}
+				if !onLM {
+					return
+				}
+				// which orderings of (If-Range date, Last-Modified) can reach a mismatch return in g?
+				kinds := map[string]bool{}
+				eachInstr(g, func(i2 ssa.Instruction) {
+					c2, ok := i2.(*ssa.Call)
+					if !ok {
+						return
+					}
+					switch calleeName(c2) {
+					case "(time.Time).Before", "(time.Time).After", "(time.Time).Equal":
+						a2 := callArgs(c2)
+						lm := false
+						for _, a := range a2 {
+							if _, pth := fieldPath(a); len(pth) > 0 && pth[len(pth)-1] == "LastModified" {
+								lm = true
+							}
+						}
+						if lm {
+							kinds[calleeName(c2)[len("(time.Time)."):]] = true
+						}
+					}
+				})
+				exact := kinds["Equal"] || (kinds["Before"] && kinds["After"])
+				r.Check(exact, "C07.R5", fnKey(g)+": an If-Range date matches only the stored Last-Modified itself", c.InstrPos(call), "compared with Equal (or with both Before and After)", "the If-Range date is compared with the stored Last-Modified in one direction only: a later (or earlier) date than the stored one counts as a match and the client gets a 206 of a representation it did not ask to resume")
+			})
+		}
 	}
 
 	// ---- R3: SliceSize / validateRange
